@@ -123,7 +123,24 @@ def run(ctx):
     ctx.rule('R01.8', 'constants of the solvers that stand for pi or 2*pi are exact (the reduction to [-pi, pi] and the wrist flips rely on them)')
     util.pi_constants(ctx, 'R01.8', [six, five])
     full, xyz = gate_roles(ctx)
-    ctx.require(len(full) >= 1 and len(xyz) >= 1, 'FK gate helpers (pose gate and position-only gate)')
+    xyz_inlined = False
+    if len(full) >= 1 and not xyz:
+        # the position-only gate written out inside the 5-DOF solver: its clauses as the symbolic run of the solver sees them
+        f5, tail5 = opw.solver_tail(ctx, five, True)
+        if f5 is not None:
+            cl = tail5.gate_clauses()
+            shape = bool(cl) and all(k == 'position' and op in ('Le', 'Lt') for k, op, tol in cl)
+            tols = sorted({(tol.lo if hasattr(tol, 'lo') and tol.is_point() else None) for k, op, tol in cl}, key=lambda x: (x is None, x))
+            ctx.check(shape, 'R01.3', 'inverse_intern_5_dof/position-gate', five.where(0), five.path,
+                      'the position gate of the 5-DOF solver must be norm(requested translation - forward(candidate) translation) <= tolerance',
+                      found=str(sorted({(k, op) for k, op, tol in cl})), detail='inlined: norm(a - b) <= tol')
+            ctx.check(bool(tols) and all(t is not None and tol_ok(t) for t in tols), 'R01.2', 'inverse_intern_5_dof/position-gate', five.where(0), five.path,
+                      'gate tolerances must be within the stated accuracy (0 < tol <= 1e-6)', found=tols, expected='<= 1e-6', detail=str(tols))
+            gv = opw.tail_verdict(ctx, five, True, ('gate', 'gate-fresh'))
+            ctx.check(gv[0], 'R01.1', 'inverse_intern_5_dof/returned', five.where(0), five.path,
+                      'a candidate is returned without passing the FK cross-check against the requested pose: ' + gv[1], detail=gv[1])
+            xyz_inlined = True
+    ctx.require(len(full) >= 1 and (len(xyz) >= 1 or xyz_inlined), 'FK gate helpers (pose gate and position-only gate)')
     for b in full:
         ctx.fn(b)
         check_gate_body(ctx, b, 'full')
@@ -175,7 +192,7 @@ def run(ctx):
                 _no_write_after_gate_read(ctx, b, fwd, elem, bi, key)
                 ctx.check(all(tol_ok(x) for x in tols), 'R01.2', key, b.where(bi), b.path,
                           'gate tolerances must be within the stated accuracy (0 < tol <= 1e-6)', found=tols, expected='<= 1e-6', detail=str(tols))
-    ctx.floor('R01.1 push sites', n_push, 3)
+    ctx.floor('R01.1 push sites', n_push + (1 if xyz_inlined else 0), 3)
 
     # extend() in inverse_continuing: from the gated 6-DOF solver on a pose shifted by <= DISTANCE_TOLERANCE/8
     ic = methods['inverse_continuing']
@@ -265,6 +282,10 @@ def _finiteness(ctx, prog, b, nslots):
     name = b.path.split('::')[-1]
     pushes = [(bi, t) for bi, t in b.calls() if cname(callee_name(t)) == 'Vec::push']
     if not pushes:
+        # no push site to start from (the candidates are filtered by an iterator chain): the returned vectors, scenario by scenario
+        tv = opw.tail_verdict(ctx, b, nslots == 5, ('finite-slots',))
+        ctx.require(tv is not None, 'the finiteness check of %s (no push site and not interpretable)' % name)
+        ctx.check(tv[0], 'R01.4', name + '/finite-slots', b.where(0), b.path, 'not every angle slot is checked for finiteness before the candidate is accepted: ' + tv[1], detail=tv[1])
         return
     bi, t = pushes[0]
     elem = strip(b.op_term(t['args'][1], (bi, None)))
